@@ -6,6 +6,7 @@ package main
 
 import (
 	"fmt"
+	"os"
 	"go/ast"
 	"go/token"
 	"go/types"
@@ -545,6 +546,19 @@ func (f *Frame) findLoops() {
 				break
 			}
 		}
+		// automatic termination measure of a `for range` loop over a slice: bound - rangeindex, where bound is the
+		// loop-invariant length the hidden index is compared with in the header (checked like a written measure)
+		if li.spec == nil || len(li.spec.Decreases) == 0 {
+			if bound := rangeBound(h); bound != "" {
+				src := "rangebound - rangeindex"
+				spec := &LoopSpec{}
+				if li.spec != nil {
+					*spec = *li.spec
+				}
+				spec.Decreases = []*Clause{{Label: "auto-range", Src: src, Expr: &EBinary{"-", &EIdent{"rangebound"}, &EIdent{"rangeindex"}}}}
+				li.spec = spec
+			}
+		}
 		// automatic (checked) invariant: an accumulator slice built only by append/make/nil is nil or freshly allocated
 		for _, in := range h.Instrs {
 			phi, ok := in.(*ssa.Phi)
@@ -782,10 +796,15 @@ func (f *Frame) loopHeader(li *loopInfo, preds []*ssa.BasicBlock) {
 		entryEnv[phi] = acc
 	}
 	allocEntry := f.alloc()
+	var entrySplits [][]T
+	if len(preds) == 1 {
+		entrySplits = f.joinSplits(preds[0], nil)
+	}
 	for k, inv := range li.spec.Invs {
 		tr := f.translator(b, entryEnv, f.st, li)
 		c := tr.boolExpr(inv.Expr)
 		o := f.obligeNamed("inv", fmt.Sprintf("loop%d.%s@entry", li.ordinal, clauseName(inv, k)), b.Instrs[0].Pos(), c, inv.Props)
+		o.Splits = entrySplits
 		f.addUses(o, li.spec.Uses, tr)
 		f.unassumeLast()
 	}
@@ -909,17 +928,7 @@ func (f *Frame) backEdge(from, h *ssa.BasicBlock, ep T) {
 		pos = h.Instrs[0].Pos()
 	}
 	// the block that closes the loop often joins the paths of the body (if / else): prove the invariant per joined path
-	var splits [][]T
-	if n := len(from.Preds); n >= 2 && n <= 4 && f.loops[from] == nil {
-		for _, p := range from.Preds {
-			if ep, ok := f.edgePred[[2]int{p.Index, from.Index}]; ok {
-				splits = append(splits, []T{ep})
-			}
-		}
-		if len(splits) != n {
-			splits = nil
-		}
-	}
+	splits := f.joinSplits(from, h)
 	for k, inv := range li.spec.Invs {
 		tr := f.translator(from, env, f.st, li)
 		c := tr.boolExpr(inv.Expr)
@@ -957,10 +966,37 @@ func (f *Frame) backEdge(from, h *ssa.BasicBlock, ep T) {
 		}
 		tr := f.translator(from, env, f.st, li)
 		o := f.obligeNamed("term", fmt.Sprintf("loop%d.decreases@back.%s", li.ordinal, tag), token.NoPos, Or(disj...), li.spec.Decreases[0].Props)
+		o.Splits = splits
 		f.addUses(o, li.spec.Uses, tr)
 		f.unassumeLast()
 	}
 	f.path, f.pathAcc = savedPath, savedAcc
+}
+
+// joinSplits: case analysis for an obligation stated at the end of block b: the incoming edges of the nearest join
+// block at or above b (following single-predecessor chains, never crossing the loop header stop).
+func (f *Frame) joinSplits(b, stop *ssa.BasicBlock) [][]T {
+	if os.Getenv("GOVC_NOBESPLIT") != "" {
+		return nil
+	}
+	join := b
+	for hops := 0; hops < 6 && len(join.Preds) == 1 && f.loops[join] == nil && join.Preds[0] != stop; hops++ {
+		join = join.Preds[0]
+	}
+	n := len(join.Preds)
+	if n < 2 || n > 14 || f.loops[join] != nil {
+		return nil
+	}
+	var splits [][]T
+	for _, p := range join.Preds {
+		if ep, ok := f.edgePred[[2]int{p.Index, join.Index}]; ok {
+			splits = append(splits, []T{ep})
+		}
+	}
+	if len(splits) != n {
+		return nil
+	}
+	return splits
 }
 
 func (f *Frame) unassumeLast() {
@@ -1097,6 +1133,37 @@ func (f *Frame) collectNames() {
 		})
 		f.names[k] = refs
 	}
+}
+
+// rangeBoundVal: in the header of a `for range` loop over a slice: `t1 = rangeindex + 1; t2 = t1 < len; if t2 ...`
+// returns the SSA value of len (defined outside the loop), or nil.
+func rangeBoundVal(h *ssa.BasicBlock) ssa.Value {
+	var idx *ssa.Phi
+	for _, in := range h.Instrs {
+		if phi, ok := in.(*ssa.Phi); ok && phi.Comment == "rangeindex" {
+			idx = phi
+		}
+	}
+	if idx == nil {
+		return nil
+	}
+	for _, in := range h.Instrs {
+		if bo, ok := in.(*ssa.BinOp); ok && bo.Op == token.LSS {
+			if inc, ok := bo.X.(*ssa.BinOp); ok && inc.Op == token.ADD && inc.X == idx {
+				if yi, ok := bo.Y.(ssa.Instruction); !ok || yi.Block() != h {
+					return bo.Y
+				}
+			}
+		}
+	}
+	return nil
+}
+
+func rangeBound(h *ssa.BasicBlock) string {
+	if v := rangeBoundVal(h); v != nil {
+		return v.Name()
+	}
+	return ""
 }
 
 // mentionsIdent: the contract expression refers to at least one program variable.
